@@ -109,6 +109,19 @@ def histories(ctx, d, th):
     ctx.cov["histories_that_load_one_policy_again_with_the_other_NoNewPrivs"] = len(p3)
     picked += p3 + p4
     nclasses += n3 + n4
+    # ... and on threads whose seccomp(2) calls are answered with ENOSYS by an enclosing filter (Loader!BlockSeccomp; a privileged starter
+    # installs it without touching the bit): the load fails there - whatever else the library tries, a filter that reaches the
+    # installation point with the bit requested finds the bit set
+    r5 = ctx.tlc("LoaderGen", lf.gen_cfg("{pool, t1, t2}", 2, '{{}, {"TSYNC"}}', '{"valid"}', "{t1, t2}", False, allow_block=True), name="LoaderGenC11block", timeout=3000)
+    ctx.cov["states"] -= r5["distinct"]
+    ctx.cov["transitions"] -= r5["generated"]
+    blocked = [h for h in lf.histories(r5["out"]) if any(e["op"] == "block" for e in h["hist"]) and any(e["op"] == "load" and e["nnp"] and 0 in e["state"][e["caller"]]["chain"] for e in h["hist"])]
+    p5, n5 = lf.sample(blocked, 200 if th else 60, ctx.seed, htags)
+    if len(p5) < 20:
+        raise vlib.Machinery("only %d histories load with NoNewPrivs on a thread whose seccomp(2) is blocked" % len(p5))
+    ctx.cov["histories_with_a_load_where_seccomp_is_answered_ENOSYS"] = len(p5)
+    picked += p5
+    nclasses += n5
 
     def one(h):
         script = lf.to_script(h, 3)
